@@ -254,13 +254,15 @@ def handle (toks : List String) : String :=
     let v := judgeLine (route == "scr") ops ans
     s!"{v}\t{v}"
   | "base" :: _kind :: "=>" :: [s, r] =>
-    let v := match parseEntries (s.drop 2).toString, parseEntries (r.drop 2).toString with
-      | some sy, some rv =>
-        if !SymSpec.tablesBijective (sy.map fun (p : Nat × Name) => (p.2, p.1)) rv then "bad:tables-not-mutually-inverse"
-        else if !contiguous rv then "bad:numbers-not-1..n"
-        else "ok"
-      | _, _ => "bad:unreadable-table-dump"
-    s!"{v}\t{v}"
+    -- first column: the spec's table clause; second column: the *model's* assumption about a
+    -- fresh interpreter (numbers 1..n all in use) — not part of the property
+    match parseEntries (s.drop 2).toString, parseEntries (r.drop 2).toString with
+    | some sy, some rv =>
+      let v := if SymSpec.tablesBijective (sy.map fun (p : Nat × Name) => (p.2, p.1)) rv then "ok"
+               else "bad:tables-not-mutually-inverse"
+      let c := if contiguous rv then "ok" else "base-numbers-not-1..n"
+      s!"{v}\t{c}"
+    | _, _ => "bad:unreadable-table-dump\t-"
   | "base" :: _ => "-\t-"
   | _ => "bad-op\t-"
 
